@@ -81,6 +81,7 @@ def main():
     from sim import ops
     from sim import planner  # noqa: F401  (node-side generator)
     from sim import nodeext  # noqa: F401  (scenario-specific node ops)
+    from sim import userclasses  # noqa: F401  (downstream-style subclasses)
 
     from sim import reset
 
